@@ -94,7 +94,7 @@ class EBB3:
             self.port.write('RB\r'.encode('ascii'))
             self.disconnect()
             return True
-        except (serial.SerialException, serial.serialutil.PortNotOpenError):
+        except (serial.SerialException, IOError, RuntimeError, OSError):
             return False
 
 
@@ -110,7 +110,7 @@ class EBB3:
             self.port.write('BL\r'.encode('ascii'))
             self.disconnect()
             return True
-        except (serial.SerialException, serial.serialutil.PortNotOpenError):
+        except (serial.SerialException, IOError, RuntimeError, OSError):
             return False
 
 
